@@ -239,7 +239,14 @@ def match_operands_unit(res):
     il, ol = z3.Ints("ilen olen")
     j = z3.Int("j")
     ex.abstract["_check_operands"] = lambda ex_, so, a, kw: SBool(chk(a[0].t, a[1].t))
-    ex.invariants[("_match_operands", 0)] = lambda ex_, env, k: tb(env["operands_ok"]) == z3.ForAll([j], z3.Implies(z3.And(0 <= j, j < k), chk(z3.Select(ia, j), z3.Select(oa, j))))
+    # invariant in terms of the abstraction ("all operands before k matched"): carried by an accumulator flag if the code keeps one
+    # (whatever its name), by control flow if the loop returns early at the first mismatch
+    def inv(ex_, env, k):
+        allok = z3.ForAll([j], z3.Implies(z3.And(0 <= j, j < k), chk(z3.Select(ia, j), z3.Select(oa, j))))
+        flags = [v for n, v in env.items() if isinstance(v, (bool, SBool)) and n not in ("self",)]
+        return tb(flags[0]) == allok if len(flags) == 1 else allok
+
+    ex.invariants[("_match_operands", 0)] = inv
 
     def run():
         return ex.call_method("MachineModel", "_match_operands", SObj("MachineModel"), [SymSeq.of_refs(ia, il, sch), SymSeq.of_refs(oa, ol, sch)])
